@@ -59,7 +59,8 @@ def cases(tier, seed):
     out += [{"cli": True, "tokens": 2 if tier == "quick" else 3, "shard": "%d/%d" % (i, n)} for i in range(n)]
     # the same cross-check started from a working directory whose NAME is full of glob syntax: the directory that
     # anchors a relative pattern is text, not a pattern
-    out += [{"cli": True, "tokens": 2 if tier == "quick" else 3, "shard": "%d/%d" % (i, n), "cwd_name": "w[a-c]{d,e}?*x!(y)"}
+    names = ["photos[2020]", "w{d,e}x", "q*r?s", "w[a-c]{d,e}?*x!(y)"]
+    out += [{"cli": True, "tokens": 2 if tier == "quick" else 3, "shard": "%d/%d" % (i, n), "cwd_name": names[(i // 4) % 4]}
             for i in range(0, n, 4 if tier == "quick" else 2)]
     return out
 
